@@ -29,8 +29,51 @@ import (
 	"google.golang.org/grpc"
 	"google.golang.org/grpc/credentials/insecure"
 	"google.golang.org/grpc/test/bufconn"
+	"verifsim/sim"
 	"verifsim/simrt"
 )
+
+// ---- seeded network timing ------------------------------------------------------------
+//
+// With c14Case.NetYield every Read and Write on the in-memory connection (both ends) is a
+// yield point of the seeded scheduler, so when bytes leave one side and when the other side
+// picks them up is decided by the seed as well: a response or the terminal result can be
+// "on the wire" while the peer makes its next call.
+
+type c14Conn struct {
+	net.Conn
+	side string
+}
+
+func (c *c14Conn) Read(p []byte) (int, error) {
+	sim.Yield(sim.ClassNet, c.side+" read")
+	return c.Conn.Read(p)
+}
+
+func (c *c14Conn) Write(p []byte) (int, error) {
+	sim.Yield(sim.ClassNet, c.side+" write")
+	return c.Conn.Write(p)
+}
+
+type c14Listener struct {
+	net.Listener
+	wrap bool
+}
+
+func (l c14Listener) Accept() (net.Conn, error) {
+	c, err := l.Listener.Accept()
+	if err != nil || !l.wrap {
+		return c, err
+	}
+	return &c14Conn{Conn: c, side: "server"}, nil
+}
+
+func c14WrapClient(c net.Conn, err error, wrap bool) (net.Conn, error) {
+	if err != nil || !wrap {
+		return c, err
+	}
+	return &c14Conn{Conn: c, side: "client"}, nil
+}
 
 // ---- gRPC -----------------------------------------------------------------------------
 
@@ -68,10 +111,13 @@ func c14GRPC(c c14Case) c14Transport {
 		ServiceDesc: &v1.TestStreamService_ServiceDesc, Internal: true,
 	}}
 	v1.RegisterTestStreamServiceServer(srv, ss)
-	go func() { _ = srv.Serve(lis) }()
+	go func() { _ = srv.Serve(c14Listener{Listener: lis, wrap: c.NetYield}) }()
 	pool := fgrpc.NewPool("passthrough:///",
 		grpc.WithTransportCredentials(insecure.NewCredentials()),
-		grpc.WithContextDialer(func(ctx context.Context, _ string) (net.Conn, error) { return lis.DialContext(ctx) }),
+		grpc.WithContextDialer(func(ctx context.Context, _ string) (net.Conn, error) {
+			conn, err := lis.DialContext(ctx)
+			return c14WrapClient(conn, err, c.NetYield)
+		}),
 	)
 	client := &fgrpc.StreamClient[Request, *v1.Request, Response, *v1.Response]{
 		RequestTranslator: c14ReqTranslator{}, ResponseTranslator: c14ResTranslator{}, Pool: pool,
@@ -114,13 +160,15 @@ func c14WarmUp() {
 func c14WS(c c14Case, bubble bool) (c14Transport, error) {
 	ln := fasthttputil.NewInmemoryListener()
 	app := fiber.New(fiber.Config{})
-	router, err := fhttp.NewRouter(fhttp.RouterConfig{})
+	router, err := fhttp.NewRouter(fhttp.RouterConfig{StreamWriteDeadline: time.Duration(c.WriteDeadlineMS) * time.Millisecond})
 	if err != nil {
 		return c14Transport{}, err
 	}
 	server := fhttp.NewStreamServer[Request, Response](router, "/")
 	router.BindTo(app)
-	go func() { _ = app.Listener(ln, fiber.ListenConfig{DisableStartupMessage: true}) }()
+	go func() {
+		_ = app.Listener(c14Listener{Listener: ln, wrap: c.NetYield}, fiber.ListenConfig{DisableStartupMessage: true})
+	}()
 	cfg := fhttp.StreamClientConfig{Codec: json.Codec}
 	if c.Codec == "msgpack" {
 		cfg.Codec = msgpack.Codec
@@ -132,7 +180,10 @@ func c14WS(c c14Case, bubble bool) (c14Transport, error) {
 	// streamClient.dialer is the zero ws.Dialer; make it dial the in-memory listener
 	f := reflect.ValueOf(client).Elem().FieldByName("dialer")
 	d := (*ws.Dialer)(unsafe.Pointer(f.UnsafeAddr()))
-	d.NetDialContext = func(context.Context, string, string) (net.Conn, error) { return ln.Dial() }
+	d.NetDialContext = func(context.Context, string, string) (net.Conn, error) {
+		conn, err := ln.Dial()
+		return c14WrapClient(conn, err, c.NetYield)
+	}
 	return c14Transport{server: server, client: client, addr: "inmem:80/", stop: func() {
 		_ = app.Shutdown()
 		_ = ln.Close()
